@@ -588,6 +588,10 @@ htp_status_t htp_connp_RES_BODY_DETERMINE(htp_connp_t *connp) {
             // proxy telling us to auth
             if ((connp->in_status != HTP_STREAM_ERROR) && (connp->in_status != HTP_STREAM_STOP))
                 connp->in_status = HTP_STREAM_DATA;
+
+            // As with any other refusal, stop at the end of this transaction so
+            // that the request side can catch up before the next response is looked at.
+            connp->out_data_other_at_tx_end = 1;
         } else {
             // This is a failed CONNECT stream, which means that
             // we can unblock request parsing
